@@ -34,6 +34,12 @@ union ForeignU
     fa
     fb Int32
 
+union UClosed
+    "same name as a union of na; the shared tag names carry other types"
+    x Timestamp("%Y")
+    y
+    z String
+
 alias ForeignA = List(Foreign)
 alias ForeignNull = Foreign?
 '''
@@ -48,6 +54,14 @@ struct Kid extends Plain
     "a child that adds a required field of its own"
     k Int32
     kn String?
+
+struct Mid extends Plain
+    "a middle struct that adds nothing"
+
+struct GrandKid extends Mid
+    "its parent has no fields of its own, its grandparent has"
+    gk Int32
+    gn String?
 
 struct Empty
     "no fields"
@@ -151,10 +165,10 @@ alias AliasU = UOpen
 alias ARes = Res
 '''
 
-PRIM_LEAVES = ['Int32', 'Int32(min_value=-5, max_value=5)', 'UInt32', 'Int64', 'UInt64(max_value=18446744073709551615)',
+PRIM_LEAVES = ['Int32', 'Int32(min_value=-5, max_value=5)', 'Int64(min_value=0)', 'Float32(max_value=0)', 'UInt32', 'Int64', 'UInt64(max_value=18446744073709551615)',
                'Float32', 'Float64(min_value=-1.5, max_value=2.5)', 'Boolean', 'String', 'String(min_length=1, max_length=3)',
                'String(pattern="[a-c]+")', 'Bytes', 'Timestamp("%Y-%m-%dT%H:%M:%SZ")', 'Timestamp("%Y")', 'Timestamp("%Y-%m-%dT%H:%M:%S%z")']
-USER_LEAVES = ['Plain', 'Kid', 'Empty', 'AllOpt', 'C', 'G', 'Res', 'ResC', 'File', 'UOpen', 'UClosed', 'UnionCc', 'UChild', 'UnionCc2', 'UGrand', 'UColl', 'nb.Foreign', 'nb.ForeignU']
+USER_LEAVES = ['Plain', 'Kid', 'GrandKid', 'Empty', 'AllOpt', 'C', 'G', 'Res', 'ResC', 'File', 'UOpen', 'UClosed', 'UnionCc', 'UChild', 'UnionCc2', 'UGrand', 'UColl', 'nb.Foreign', 'nb.ForeignU', 'nb.UClosed']
 ALIAS_LEAVES = ['APrim', 'AStr', 'APlain', 'ANull', 'ANullOpt', 'ANullE', 'ANullU', 'ANullTs', 'AList', 'AliasA', 'AliasU', 'ARes', 'nb.ForeignA', 'nb.ForeignNull']
 NULLABLE_LEAVES = {'ANull', 'ANullOpt', 'ANullE', 'ANullU', 'ANullTs', 'nb.ForeignNull'}
 
@@ -331,7 +345,7 @@ def ts_values(fmt):
     else:
         out = [datetime.datetime(1970, 1, 1, 0, 0, 0), datetime.datetime(2015, 5, 12, 15, 50, 38)]
     if AWARE[0]:
-        out = out + [out[-1].replace(tzinfo=utc)]
+        out = out + [out[-1].replace(tzinfo=utc), out[-1].replace(microsecond=250000)]
     return out
 
 
